@@ -16,6 +16,7 @@ import time
 import vcommon as V
 
 sys.path.insert(0, os.path.join(V.VERIF, "translator"))
+sys.path.insert(0, os.path.join(V.VERIF, "gen"))
 import c11_named as TN  # noqa
 
 SPECIAL_OUT = set(map(ord, "\\|.^-?*+{}()[]"))       # must be escaped outside a class (we escape '-' and '^' too)
@@ -483,6 +484,115 @@ def range_spec_ok(kind, req, a, b, nb, impl):
     return None
 
 
+def run_xp(ctx, xh, xm, found, texts, report, replay_group=None):
+    """the XPath-flavoured (non-schema) API: metamorphic oracles O1..O7, Spec oracle O8, model O9 (gen/C11_xp.py)"""
+    import C11_xp as X
+    t0 = time.time()
+    groups = [replay_group] if replay_group else X.gen(ctx)
+    tagged_all, spans = [], []
+    for gi, g in enumerate(groups):
+        others = [groups[(gi + d) % len(groups)] for d in (1, 2)] if len(groups) > 2 else []
+        tg = X.requests_for(g, ctx.rng, others)
+        spans.append((len(tagged_all), len(tagged_all) + len(tg), tg))
+        tagged_all += tg
+    lines = [l for _, l in tagged_all]
+    try:
+        rc, ans, err = run_bin(xh, lines, 420 if ctx.tier == "quick" else 3000)
+    except subprocess.TimeoutExpired:
+        ctx.violation("harness-hang", {"what": "xp harness run did not finish"}, no_input=True)
+        return
+    if rc != 0 or len(ans) != len(lines):
+        k = min(len(ans), len(lines) - 1)
+        ctx.violation("harness-crash", {"what": "implementation harness crashed on the non-schema API", "rc": rc,
+                                        "stderr": err[-1500:], "request": lines[k]})
+        return
+    kinds = ctx.coverage["input_distribution"]
+    oracle_hits = {}
+    spec_lines, spec_ref = [], []
+    model_lines, model_ref = [], []
+    for g, (a, b, tg) in zip(groups, spans):
+        kinds[g["kind"]] = kinds.get(g["kind"], 0) + 1
+        bad, f = X.evaluate(g, tg, ans[a:b])
+        ctx.count(len(g["subj"]) * len(tg))
+        if f is not None and any(x[:1] == "1" for x in f) and any(x[:1] == "0" for x in f):
+            ctx.distinct(tg[0][1])
+        for oracle, detail, line in bad:
+            oracle_hits[oracle] = oracle_hits.get(oracle, 0) + 1
+            if oracle == "O7-replace-groups":
+                found.setdefault("F31", []).append(("xp", line, detail))
+                continue
+            report("xp-" + oracle, {"request": line, "oracle": oracle, "detail": detail,
+                                    "xp_group": {k: g[k] for k in ("kind", "pat", "opts", "subj", "deco", "plain", "ngroups")},
+                                    "what": "non-schema API: metamorphic oracle %s violated (see gen/C11_xp.py)" % oracle})
+        if f is None:
+            continue
+        S = ",".join(hx(s) for s in g["subj"])
+        if g.get("expr") is not None and not g["deco"] and "i" not in g["opts"] and "x" not in g["opts"]:
+            spec_lines.append("spec %s %s" % (X.any_window_ast(X.ast_xp(g["expr"], "s" in g["opts"])), S))
+            spec_ref.append((g, f, tg[0][1]))
+        if g.get("expr") is not None and g["plain"] and not g["deco"] and "i" not in g["opts"] and "x" not in g["opts"]:
+            model_lines.append("search %s %s %s %s" % (ctx.coverage.get("_swbits", "000"), "1" if "s" in g["opts"] else "0",
+                                                     hx(g["pat"]), S))
+            model_ref.append((g, f, tg[0][1]))
+        if g.get("lit"):
+            # a pure literal: python's own substring search is the oracle (leftmost occurrence)
+            for k, s in enumerate(g["subj"]):
+                pos = next((i for i in range(len(s) - len(g["lit"]) + 1) if s[i:i + len(g["lit"])] == g["lit"]), None)
+                want = "0" if pos is None else "1:%d_%d" % (X.units(s[:pos]), X.units(s[:pos + len(g["lit"])]))
+                if f[k] != want:
+                    report("xp-literal", {"request": tg[0][1], "subject_index": k, "impl": f[k], "spec": want,
+                                          "xp_group": {k2: g[k2] for k2 in ("kind", "pat", "opts", "subj", "deco", "plain", "ngroups", "lit")},
+                                          "what": "literal pattern: window found differs from the leftmost occurrence"})
+                    break
+    if spec_lines:
+        rc3, sp, _ = run_bin(xm, spec_lines)
+        for (g, f, line), so in zip(spec_ref, sp):
+            bits = so.split()[1] if so.startswith("ok") else ""
+            for k, (x, y) in enumerate(zip(f, bits)):
+                if x[:1] == "C":
+                    found.setdefault("F28", []).append(("xp", line, "diverges on subject #%d" % k))
+                    break
+                if x[:1] != y:
+                    report("xp-O8-spec", {"request": line, "subject_index": k, "impl": x, "spec": y,
+                                          "ast": X.any_window_ast(X.ast_xp(g["expr"], "s" in g["opts"])),
+                                          "xp_group": {k2: g[k2] for k2 in ("kind", "pat", "opts", "subj", "deco", "plain", "ngroups")},
+                                          "what": "non-schema matches(): 'some window matches' differs from the Spec (dmatch_re on ANY* r ANY*)"})
+                    break
+    n_model = 0
+    if model_lines:
+        rc4, mo, err4 = run_bin(xm, model_lines)
+        if rc4 != 0 or len(mo) != len(model_lines):
+            ctx.violation("model-crash", {"what": "search model crashed", "stderr": err4[-1500:]}, no_input=True)
+            return
+        for (g, f, line), m in zip(model_ref, mo):
+            if not m.startswith("ok"):
+                report("xp-O9-model", {"request": line, "impl": f[:5], "model": m, "what": "model rejects an expression the implementation accepts"})
+                continue
+            mres = m.split()[1].split(";") if len(m.split()) > 1 else []
+            for k, (x, y) in enumerate(zip(f, mres)):
+                n_model += 1
+                if y == "C" or x == "C":
+                    if x != y:
+                        report("xp-O9-model", {"request": line, "subject_index": k, "impl": x, "model": y, "what": "divergence differs"})
+                        break
+                    continue
+                s = g["subj"][k]
+                want = "0"
+                if y != "0":
+                    a, b = map(int, y.split("_"))
+                    want = "%d_%d" % (X.units(s[:a]), X.units(s[:b]))
+                got = "0" if x[:1] == "0" else x[2:].split(",")[0]
+                if got != want:
+                    report("xp-O9-model", {"request": line, "subject_index": k, "impl": x, "model": want,
+                                           "xp_group": {k2: g[k2] for k2 in ("kind", "pat", "opts", "subj", "deco", "plain", "ngroups")},
+                                           "what": "non-schema matches(): window found differs from the search model (Model11.xsearch_tok)"})
+                    break
+    ctx.coverage["xp"] = {"groups": len(groups), "requests": len(lines), "oracle_hits": oracle_hits,
+                          "spec_checked_groups": len(spec_lines), "model_checked_groups": len(model_lines),
+                          "model_checked_subjects": n_model, "seconds": round(time.time() - t0, 1)}
+    ctx.coverage["traces_validated_against_impl"] += len(lines)
+
+
 def run(ctx):
     t0 = time.time()
     ctx.coverage["trusted_base"] = list(V.GLOBAL_TRUSTED_BASE) + [
@@ -516,6 +626,7 @@ def run(ctx):
         return
     xm = ctx.ocaml("C11", ["gen_c11"])
     # 4. requests
+    replay_group = None
     if ctx.replay:
         r = json.load(open(ctx.replay))
         reqs = [{"kind": "replay", "req": r["request"], "ast": r.get("ast"), "mode": r["request"].split()[0],
@@ -523,6 +634,11 @@ def run(ctx):
         rngs = []
         if r["request"].startswith("rng"):
             rngs, reqs = [tuple(r["rng_case"])], []
+        if r.get("xp_group"):
+            replay_group = dict(r["xp_group"])
+            replay_group.setdefault("expr", None)
+            reqs = [{"kind": "replay", "req": "re X 000061 000061", "ast": "Sr000061000061", "mode": "re", "pat": None,
+                     "strs": None}]
     else:
         reqs = gen_requests(ctx)
         rngs = gen_ranges(ctx)
@@ -696,6 +812,21 @@ def run(ctx):
         ctx.violation("correspondence", {"what": "model and implementation differ but the Spec oracle found no failing input: "
                                          "correspondence xh_C11~xm_C11 no longer checks", "request": req, "impl": a,
                                          "model": m, "count": len(unexplained)}, no_input=True)
+    # --- the non-schema (XPath-flavoured) API ---
+    ctx.coverage["input_distribution"] = kinds
+    ctx.coverage["_swbits"] = swbits
+    if not ctx.replay:
+        # F32 witness, in a process of its own (the overrun corrupts the heap)
+        try:
+            rcw, ow, _ = run_bin(xh, ["xp b i %s %s" % (hx([ord(c) for c in "[a-[a]]"]), hx([0x61]))], 60)
+        except subprocess.TimeoutExpired:
+            rcw, ow = -9, []
+        if rcw != 0 or not ow or not ow[0].startswith("ok"):
+            found.setdefault("F32", []).append(("xp", "xp b i %s %s" % (hx([ord(c) for c in "[a-[a]]"]), hx([0x61])),
+                                                "harness rc=%s" % rcw))
+    if not ctx.replay or replay_group:
+        run_xp(ctx, xh, xm, found, None, report, replay_group)
+    ctx.coverage.pop("_swbits", None)
     # --- findings ---
     texts = {
         "F15": "backtracking matcher commits to the first completion (schema mode then demands it ends at the limit): "
@@ -706,6 +837,10 @@ def run(ctx):
         "F28": "nested closure over an optional body recurses without bound when the continuation fails: `(a*)*b` on \"a\" "
                "overflows the stack (crash)",
         "F29": "'.' also excludes U+2028/U+2029 and, by 16-bit truncation in isEOLChar, supplementary characters such as U+1000A",
+        "F31": "replace()/tokenize() bookkeeping: allMatches copies the previous Match, so a group that does not take part in "
+               "a later match keeps the previous match's positions: (b)|c on \"bcb\" with replacement [$0|$1] gives [c|b]",
+        "F32": "option i and a character class that ends up empty (e.g. [a-[a]]): RangeToken::getCaseInsensitiveToken loops "
+               "to fElemCount - 1 with unsigned fElemCount == 0 and writes past its buffer; the constructor crashes",
         "F30": "malformed schema-mode expressions rejected with the wrong exception: `\\1` throws RuntimeException, an "
                "unpaired high surrogate throws a bare XMLErrs code instead of ParseException",
     }
@@ -713,6 +848,8 @@ def run(ctx):
         idx = found[fid]
         if ctx.find_known(fid):
             ctx.known_finding(fid, "%s; %d generated cases of this class" % (texts.get(fid, ""), len(idx)))
+        elif isinstance(idx[0], tuple):
+            ctx.violation(fid, {"request": idx[0][1], "detail": idx[0][2], "what": texts.get(fid, fid)})
         else:
             i = idx[0]
             req = lines[i] if i >= 0 else "re X %s ." % hx([92, 49])
